@@ -110,7 +110,7 @@ impl Polynomial {
     pub fn evaluate(&self, x: C) -> (r: C) requires self.wf() ensures r@ == cval(*self, x@) { unimplemented!() }
     #[verifier::external_body]
     pub fn evaluate_derivative(&self, x: C) -> (r: (C, C)) requires self.wf() { unimplemented!() }
-    // ASSUMED (not proved in C12): deflating by a monic linear factor lowers the length by exactly one and keeps the leading
+    // restated here; PROVED in unit divide_complex: deflating by a monic linear factor lowers the length by exactly one and keeps the leading
     // coefficient and the tolerance, provided the dividend's leading coefficient is not purged
     #[verifier::external_body]
     pub fn divide(&self, divisor: &Polynomial) -> (r: Result<(Polynomial, Polynomial), String>)
